@@ -432,6 +432,31 @@ static void tuple_case(Rng &r) {
 	count("tuple_cases");
 }
 
+// allocation.hpp helpers: construct / construct_n pair allocate(sizeof(T) [* n]) with destruct / destruct_n (deallocate with the same size)
+static void alloc_helpers_case(Rng &r) {
+	g_elems.owner = "allocation-helpers";
+	AllocState as; as.owner = "allocation-helpers";
+	{
+		TrackedAlloc al(&as);
+		int v = (int)r.below(1000);
+		Elem *one = frg::construct<Elem>(al, v);
+		if(one->get() != v) fail17("construct", "frg::construct value");
+		Elem *two = frg::construct<Elem>(al, v / 1000, v % 1000);
+		size_t n = r.below(9);
+		Elem *many = frg::construct_n<Elem>(al, n, 7);
+		for(size_t i = 0; i < n; i++) if(many[i].get() != 7) fail17("construct_n", "frg::construct_n element value");
+		if(as.live.size() != 3) fail17("construct", "construct/construct_n must allocate exactly one block each");
+		frg::destruct(al, one);
+		frg::destruct(al, two);
+		frg::destruct_n(al, many, n);
+		frg::destruct(al, (Elem *)nullptr);
+		frg::destruct_n(al, (Elem *)nullptr, 3);
+	}
+	expect_no_elems("after destruct/destruct_n");
+	expect_no_blocks(as, "after destruct/destruct_n");
+	count("alloc_helper_cases");
+}
+
 // expected<E, void>
 static void expected_void_case() {
 	using X = frg::expected<Err>;
@@ -476,7 +501,7 @@ int main(int argc, char **argv) {
 			if(!want_case(i)) { r.next(); continue; }
 			begin_case("tuple", i);
 			Rng rr(r.next());
-			guarded(g_prop.c_str(), [&] { tuple_case(rr); });
+			guarded(g_prop.c_str(), [&] { tuple_case(rr); alloc_helpers_case(rr); });
 			note_distinct(mix(77, rr.s[1]));
 		}
 		begin_case("tuple", n);
